@@ -40,6 +40,8 @@ def placements():
     out.append(("mod-after", lambda t: {"main": [R(t), ("mod", "m1")], "m1": [STRUCT_X]}, False, None))
     out.append(("mod-of-mod", lambda t: {"main": [("mod", "m1"), R(t)], "m1": [("mod", "m2")], "m2": [ENUM_X]}, True, "Enum"))
     out.append(("mod-dotted", lambda t: {"main": [("mod", "sub.m1"), R(t)], "sub/m1": [STRUCT_X]}, True, "Struct"))
+    out.append(("mod-struct-using-mod-enum", lambda t: {"main": [("mod", "m1"), ("struct", "R", (("pre", 0, U(8), None, None), ("r", 1, _rename(t, "Y"), None, None)))], "m1": [ENUM_X, ("struct", "Y", (("e", 0, ("ref", "X"), None, None), ("es", 1, Arr(("ref", "X"), 2), None, None)))]}, True, "Struct"))
+    out.append(("mod-enum-and-struct", lambda t: {"main": [("mod", "m1"), R(t)], "m1": [("struct", "Z", (("k", 0, U(1), None, None),)), ENUM_X]}, True, "Enum"))
     out.append(("inside-mod-undeclared", lambda t: {"main": [("mod", "m1")], "m1": [R(t)]}, False, None))
     out.append(("inside-mod-uses-main-decl", lambda t: {"main": [STRUCT_X, ("mod", "m1")], "m1": [R(t)]}, False, None))
     return out
@@ -81,6 +83,28 @@ def build_cases(tier):
     return cases, tr
 
 
+_WDIR = {}
+
+
+def _worker_dir():
+    """One scratch directory per worker process, below the per-run base that run() removes."""
+    pid = os.getpid()
+    if pid not in _WDIR:
+        _WDIR.clear()
+        _WDIR[pid] = tempfile.mkdtemp(prefix="w-", dir=os.environ["FCPMC_WD_BASE"])
+    return _WDIR[pid]
+
+
+class WorkDirs:
+    def __enter__(self):
+        self.base = tempfile.mkdtemp(prefix="fcpmc-wd-")
+        os.environ["FCPMC_WD_BASE"] = self.base
+        return self
+
+    def __exit__(self, *a):
+        shutil.rmtree(self.base, ignore_errors=True)
+
+
 def leaf_type(t):
     while hasattr(t, "underlying_type"):
         t = t.underlying_type
@@ -96,7 +120,12 @@ def make_worker(tier):
         if len(files) == 1:
             text = print_schema(files["main"])
             return get_fcp_from_string(text, Logger({})), {"main.fcp": text}
-        td = tempfile.mkdtemp(prefix="fcpmc-c08-")
+        # ONE directory per worker process, rewritten for every case: consecutive cases reuse the same paths,
+        # so anything cached per path between parses shows up
+        td = _worker_dir()
+        for fn in os.listdir(td):
+            p = os.path.join(td, fn)
+            shutil.rmtree(p) if os.path.isdir(p) else os.remove(p)
         try:
             texts = {}
             for name, decls in files.items():
@@ -106,7 +135,7 @@ def make_worker(tier):
                 open(p, "w").write(texts[name + ".fcp"])
             return get_fcp(os.path.join(td, "main.fcp"), Logger({})), texts
         finally:
-            shutil.rmtree(td, ignore_errors=True)
+            pass
 
     def work(chunk):
         S = Stats()
@@ -165,8 +194,9 @@ def run(tier):
     r = Run("C08", tier)
     cases, tr = build_cases(tier)
     r.bounds = {"cases": len(cases), "wrapper_depth": 2 if tier == "quick" else 3, "unrelated_interleaved": "0..1" if tier == "quick" else "0..2", "placements": len(placements())}
-    for s in pmap(make_worker(tier), chunks(list(enumerate(cases)), 40)):
-        r.stats.merge(s)
+    with WorkDirs():
+        for s in pmap(make_worker(tier), chunks(list(enumerate(cases)), 40)):
+            r.stats.merge(s)
     r.stats.c["transitions"] += tr
     r.rule = (
         "states = (placement of the referenced declaration: before/after/self/undeclared/case-differs/imported before/after/module of module/dotted/inside module) x "
